@@ -815,7 +815,7 @@ func explore(run *vlib.Run, b Bounds, graphs []*Graph) {
 	run.Set("metamorphic_disagreements_not_explained_by_oracle1", metaUnexplained)
 	run.Set("worker_processes", workers)
 	run.Set("rule", "for every graph G, partition/order P and input x: the BASM text (fragments, fidef, filinkdef/filinkatt, one cpdef fragcollapse list per block of P) is assembled by basm's public API, run on bondmachine.VM with x held on the external inputs for T = 2*Lmax*(n+1)+2n+8 ticks (Lmax = longest CP program, n = instances); outputs at tick T must stay unchanged for 2*Lmax+2 more ticks and equal eval(G)(x) mod 256; the output tables of all P of one G must be identical; an assembler error on a topologically valid P is a failure")
-	run.Assume("only opcodes with a faithful Go simulation are used in fragments (inc, add, cpy) plus what the composer inserts (i2r, r2o, cpy, j)")
+	run.Assume("only opcodes with a faithful Go simulation are used in fragments (inc, add, cpy, rset) plus what the composer inserts (i2r, r2o, cpy, j)")
 	run.Assume("iomode async: external inputs are level signals held for the whole run; result = settled outputs")
 	// samples: actual sources of passing cases (one fully collapsed, one mixed, one fully split) and of failing cases
 	ns := 0
